@@ -3,11 +3,13 @@
 #define FAM_ALL_HPP
 #include "fam_quant.hpp"
 #include "fam_distinct.hpp"
+#include "fam_misc.hpp"
 namespace fam {
 inline void register_all_families() {
   if (!registry().empty()) return;
   register_quant_families();
   register_distinct_families();
+  register_misc_families();
 }
 }
 #endif
